@@ -21,7 +21,7 @@ class NotInDialect(Exception):
 
 def _skip_ws(t, i):
     n = len(t)
-    while i < n and t[i] in WS:
+    while i < n and t[i].isspace():
         i += 1
     return i
 
@@ -126,7 +126,7 @@ def _entry(t, i, etype, start):
         if fields and not had_comma:
             raise NotInDialect("comma expected")
         j = i
-        while j < n and t[j] not in "=" and t[j] not in WS:
+        while j < n and t[j] not in "=" and not t[j].isspace():
             j += 1
         fkey = t[i:j]
         if not FKEY_RE.match(fkey):
